@@ -94,7 +94,10 @@ func (d *PathDecoder) SignatureAtPos(filename string, pos hcl.Pos) (*lang.Functi
 		}
 
 		if activePar >= paramsLen && f.VarParam == nil {
-			return nil // too many arguments passed to the function
+			// too many arguments passed to the function, which is also
+			// the innermost one so far, so don't report any outer one
+			signature = nil
+			return nil
 		}
 
 		if activePar >= paramsLen {
